@@ -279,6 +279,7 @@ def gen_infinite(rng, idx):
     A = gen_terms(rng, kind, L * nwin, conserve, exact, hermitian, rng.randint(1, 3), maxrange=max(1, min(maxr, 3)), cell=L)
     case = {'kind': 'infinite', 'site': {'type': kind, 'conserve': conserve}, 'L': L, 'nwin': nwin, 'seed': 5000 + idx, 'exact': exact,
             'A': {'terms': A, 'max_range_none': rng.random() < 0.25}}
+    case['psi_L'] = L if rng.random() < 0.5 else 2 * L        # unit cell of the state may differ from the one of the MPO
     B, how, same = perturb(rng, kind, A, L, conserve, exact, cell=L)
     case['B'] = {'terms': B}
     case['pair'] = {'how': how, 'same': same}
@@ -511,7 +512,10 @@ def check_algebra(ctx, case, r, coq):
                     if not np.all(np.isfinite(res)):
                         probs.append(('C11:' + nm, 'variational result is not finite'))
                     continue
-                if infid > 12 * eps + 1e-9:
+                # SVD compression truncates in canonical form: |delta|^2 <= 2 (L-1) sum eps.  zip_up truncates in a gauge that is
+                # canonical only for MPOs close to the identity (documented): its error is checked up to a loose factor
+                factor = 12 if meth['method'] == 'SVD' else 200
+                if infid > factor * eps + 1e-9:
                     probs.append(('C11:' + nm + ':error-underreported', '%s: infidelity %.3e of the result exceeds the reported truncation error %.3e'
                                   % (meth['name'], infid, eps)))
     annihilated = 'psi' in mats and np.linalg.norm(A @ mats['psi']) < 1e-9
@@ -603,18 +607,20 @@ def check_infinite(ctx, case, r):
         if not r['is_equal_AA'] and not zeroA:
             probs.append(('C11:infinite:is_equal:false-negative', 'is_equal(A, A) is False'))
     # expectation values in the product state: density = sum of terms starting in the unit cell / L
+    Lp = case.get('psi_L', L)
     vec = np.array([1.0 + 0j])
     for k in range(N):
-        vec = np.kron(vec, np.array([complex(*x) for x in r['state'][k % L]]))
+        vec = np.kron(vec, np.array([complex(*x) for x in r['state'][k % Lp]]))
     dens = 0
-    for t, st in case['A']['terms']:
-        if max(k for _, k in t) < N and min(k for _, k in t) >= 0:
-            dens += complex(*st) * np.vdot(vec, dense.product([(o, k) for o, k in t]) @ vec)
-        else:
-            dens = None
-            break
+    Lc = max(L, Lp)            # common period (Lp is L or 2 L)
+    for sh in range(0, Lc, L):
+        for t, st in case['A']['terms']:
+            if dens is not None and max(k for _, k in t) + sh < N and min(k for _, k in t) >= 0:
+                dens += complex(*st) * np.vdot(vec, dense.product([(o, k + sh) for o, k in t]) @ vec)
+            else:
+                dens = None
     if dens is not None:
-        dens = dens / L
+        dens = dens / Lc
         for nm in ('expectation_value', 'expectation_value_power', 'expectation_value_TM'):
             if nm in r and abs(complex(*r[nm]) - dens) > 1e-7 * scale:
                 probs.append(('C11:infinite:' + nm, '%s = %s, density of the terms in the product state = %s' % (nm, r[nm], dens)))
@@ -684,6 +690,12 @@ def main(ctx):
     if not ctx.proof.ok:
         n_alg = int(n_alg * 1.6)
     cases = [c['case'] for c in common.corpus_cases('C11')]
+    if ctx.replay_in:
+        import json
+        replay = json.load(open(ctx.replay_in)).get('input') or {}
+        if isinstance(replay.get('case'), dict):
+            cases.append(replay['case'])
+            n_alg = n_inf = n_prop = 0
     cases += [gen_algebra(rng, i) for i in range(n_alg)]
     cases += [gen_infinite(rng, i) for i in range(n_inf)]
     cases += [gen_propagator(rng, i) for i in range(n_prop)]
